@@ -384,7 +384,54 @@ func (s *sim) verifyRetained(changed bool) {
 	}
 }
 
+// comb inserts a comb-shaped set of prefixes: a deep chain 0^d with a right sibling 0^i 1 at every level, so that LowerBound
+// iterators carry a pending stack as deep as the trie.
+func (s *sim) comb(what string, txn *lpm.Txn[uint64], tm map[string]uint64) {
+	depth := min(s.W-1, 20+s.rng.IntN(50))
+	s.logf("%s comb depth=%d", what, depth)
+	zeros := ""
+	for i := 0; i < depth; i++ {
+		right := zeros + "1"
+		if s.rng.IntN(3) == 0 && len(right) < s.W { // give some siblings children
+			s.nextVal++
+			k := right + "0"
+			txn.Insert(s.keyOfBits(k), s.nextVal)
+			tm[k] = s.nextVal
+			s.nextVal++
+			k = right + "1"
+			txn.Insert(s.keyOfBits(k), s.nextVal)
+			tm[k] = s.nextVal
+		}
+		s.nextVal++
+		txn.Insert(s.keyOfBits(right), s.nextVal)
+		tm[right] = s.nextVal
+		zeros += "0"
+	}
+	s.nextVal++
+	txn.Insert(s.keyOfBits(zeros), s.nextVal)
+	tm[zeros] = s.nextVal
+	// iterators from the bottom of the comb
+	all := sortedEntries(tm)
+	for _, q := range []string{zeros, zeros[:len(zeros)/2], ""} {
+		it := txn.LowerBound(s.keyOfBits(q))
+		want := expectLower(all, q)
+		if got := s.collect(what, it); !eq(got, want) {
+			s.violate("lowerbound", "%s: LowerBound(%s) on the comb: got [%s] want [%s]", what, q, show(got), show(want))
+			return
+		}
+		if got := s.collect(what, it); !eq(got, want) {
+			s.violate("persistence/iterator", "%s: second iteration of the LowerBound(%s) iterator on the comb differs: got [%s] want [%s]", what, q, show(got), show(want))
+			return
+		}
+		s.retainIter(fmt.Sprintf("%s comb lowerbound %s", what, q), it, want)
+	}
+}
+
 func (s *sim) body(what string, txn *lpm.Txn[uint64], tm map[string]uint64, nops int) (changed bool) {
+	if s.W >= 32 && s.rng.IntN(12) == 0 {
+		s.comb(what, txn, tm)
+		changed = true
+	}
 	for i := 0; i < nops && !s.failed; i++ {
 		switch x := s.rng.IntN(100); {
 		case x < 50:
